@@ -13,24 +13,52 @@ Set Default Timeout 120.
 (* every file Model.read_cnt_with reads is read identically by the reader with
    the label decision, with no pure_cflux: the theorems of Props.v carry over *)
 Theorem C03_read_cntx_conservative :
-  forall pats ngs ls r, read_cnt_with pats ngs ls = Ok r ->
-  read_cntx_with pats ngs ls = Ok (r, None).
+  forall per_block pats ngs ls r, read_cnt_with pats ngs ls = Ok r ->
+  read_cntx_with per_block pats ngs ls = Ok (r, None).
 Proof. exact read_cntx_conservative. Qed.
 
-(* REFUTED: "write -> read yields the same prescriptions for concentrated
+(* The reader as the tree under test has it: the flag translated on this run
+   (gen/CntSections.v cflux_per_block) *)
+Definition read_cntx := read_cntx_with cflux_per_block ignore_pats.
+
+(* With per-block labelling (the code after the repair) the witness of the
+   refutation below and a pure_cflux table alone come back as written: same
+   cflux, same pure_cflux.  (Witness-level statement: the general round trip
+   with both tables is not proved — Props.v covers conditions without
+   pure_cflux, C03_read_cntx_conservative carries it to this reader.) *)
+Theorem C03_cflux_with_pure_cflux_per_block_witness :
+  forall x, x = both_fluxes \/ x = pure_only ->
+  exists ls r p, write_cntx_of cnt_sections x = Ok ls /\ read_cntx_with true ignore_pats [] ls = Ok (r, p) /\
+    r_cflux r = c_cflux (x_cnt x) /\ p = x_pure x.
+Proof.
+  intros x [-> | ->].
+  - destruct (write_cntx_of cnt_sections both_fluxes) as [ls|] eqn:W; [|vm_compute in W; discriminate].
+    destruct (read_cntx_with true ignore_pats [] ls) as [[r p]|] eqn:R;
+      [|vm_compute in W; injection W as <-; vm_compute in R; discriminate].
+    exists ls, r, p. vm_compute in W. injection W as <-. vm_compute in R. injection R as <- <-.
+    repeat split.
+  - destruct (write_cntx_of cnt_sections pure_only) as [ls|] eqn:W; [|vm_compute in W; discriminate].
+    destruct (read_cntx_with true ignore_pats [] ls) as [[r p]|] eqn:R;
+      [|vm_compute in W; injection W as <-; vm_compute in R; discriminate].
+    exists ls, r, p. vm_compute in W. injection W as <-. vm_compute in R. injection R as <- <-.
+    repeat split.
+Qed.
+
+(* REFUTED (for the reader without per-block labelling, flag = false):
+   "write -> read yields the same prescriptions for concentrated
    fluxes" fails for conditions that hold both a 'cflux' and a 'pure_cflux'
    table: both sections match extract_data('!CFLUX'), the only TYPE= captured is
    PURE, so every row comes back as 'pure_cflux' and 'cflux' is gone.
    Witness: cflux {1: 1.5, 2: 2.5}, pure_cflux {3: 7.0}. *)
 Theorem C03_cflux_with_pure_cflux_refuted :
   exists (x : cntx) ls r p,
-    write_cntx_of cnt_sections x = Ok ls /\ read_cntx_with ignore_pats [] ls = Ok (r, p) /\
+    write_cntx_of cnt_sections x = Ok ls /\ read_cntx_with false ignore_pats [] ls = Ok (r, p) /\
     c_cflux (x_cnt x) <> None /\ r_cflux r = None /\
     p = Some (opt_values (c_cflux (x_cnt x)) ++ opt_values (x_pure x))%list /\ p <> x_pure x.
 Proof.
   exists both_fluxes.
   destruct (write_cntx_of cnt_sections both_fluxes) as [ls|] eqn:W; [|vm_compute in W; discriminate].
-  destruct (read_cntx_with ignore_pats [] ls) as [[r p]|] eqn:R;
+  destruct (read_cntx_with false ignore_pats [] ls) as [[r p]|] eqn:R;
     [|vm_compute in W; injection W as <-; vm_compute in R; discriminate].
   exists ls, r, p. vm_compute in W. injection W as <-. vm_compute in R. injection R as <- <-.
   repeat split; try discriminate.
@@ -39,14 +67,14 @@ Qed.
 (* a 'pure_cflux' table alone does come back as written *)
 Example C03_example_pure_only :
   match write_cntx_of cnt_sections pure_only with
-  | Ok ls => show_rcntx (read_cntx_with ignore_pats [] ls)
+  | Ok ls => show_rcntx (read_cntx_with false ignore_pats [] ls)
   | Err _ => ["ERROR"]
   end = ["SOLUTION HEAT"; "pure_cflux"; "3,7.000000000000E+00"].
 Proof. vm_compute. reflexivity. Qed.
 
 Example C03_example_both_fluxes :
   match write_cntx_of cnt_sections both_fluxes with
-  | Ok ls => (firstn 5 (skipn 17 ls), show_rcntx (read_cntx_with ignore_pats [] ls))
+  | Ok ls => (firstn 5 (skipn 17 ls), show_rcntx (read_cntx_with false ignore_pats [] ls))
   | Err _ => ([], [])
   end = (["!CFLUX"; "1,1.500000000000E+00"; "2,2.500000000000E+00"; "!CFLUX, TYPE=PURE";
           "3,7.000000000000E+00"],
@@ -56,3 +84,4 @@ Proof. vm_compute. reflexivity. Qed.
 
 Print Assumptions C03_read_cntx_conservative.
 Print Assumptions C03_cflux_with_pure_cflux_refuted.
+Print Assumptions C03_cflux_with_pure_cflux_per_block_witness.
